@@ -18,7 +18,8 @@ The partition is its events `0 … n-1` in stored order; a position is the index
 server is assumed honest (that is C03): a query at position `p` answers with the events `p … p+k'-1`
 (`k' = min k (n-p)`, `k` chosen by the environment: page limit, what is flushed) and a next request at `p+k'`.
 `persist` is `persistState()` (periodic tick); `stop`/`graceful` end the session with the final persist,
-`crash` without it; the next session starts from what is persisted (`loadState`, `prepareQuery`).
+`crash` without it, `crashAfterAccept k` is a crash between the sink's accept and `setPosition` (the one batch in
+flight); the next session starts from what is persisted (`loadState`, `prepareQuery`).
 Ghost fields: `sess` (indices the sink accepted in this session, in order), `all` (over all sessions),
 `start0`, `sessionStart`, `high`.
 -/
@@ -37,17 +38,19 @@ structure S where
   batches : List (Nat × Nat)   -- accepted batches `[a,b)` over all sessions, in order
   high : Nat           -- one past the highest index ever accepted (start0 if none)
   sessions : Nat
+  accSince : Nat       -- events accepted since the last persist or restart
 deriving DecidableEq, Repr
 
 def init (n start : Nat) : S :=
   { n := n, pos := start, desc := start, persisted := start, start0 := start, sessionStart := start,
-    sess := [], all := [], batches := [], high := start, sessions := 1 }
+    sess := [], all := [], batches := [], high := start, sessions := 1, accSince := 0 }
 
 inductive L where
   | qTransport | qServer | qEmpty
   | page (k : Nat) (accept : Bool)
   | persist
   | stop | graceful | crash
+  | crashAfterAccept (k : Nat)   -- the sink accepts a page of up to k events, the process dies before `setPosition`
   | grow (k : Nat)
 deriving DecidableEq, Repr
 
@@ -59,7 +62,8 @@ structure Cfg where
 deriving DecidableEq, Repr
 
 def restart (s : S) : S :=
-  { s with pos := s.persisted, desc := s.persisted, sessionStart := s.persisted, sess := [], sessions := s.sessions + 1 }
+  { s with pos := s.persisted, desc := s.persisted, sessionStart := s.persisted, sess := [], sessions := s.sessions + 1,
+           accSince := 0 }
 
 def step (c : Cfg) (s : S) : L → S
   | .qTransport => s
@@ -70,15 +74,20 @@ def step (c : Cfg) (s : S) : L → S
     if k' = 0 then s
     else if acc then
       { s with pos := s.pos + k', desc := s.pos + k', sess := s.sess ++ List.range' s.pos k',
-               all := s.all ++ List.range' s.pos k', batches := s.batches ++ [(s.pos, s.pos + k')], high := max s.high (s.pos + k') }
+               all := s.all ++ List.range' s.pos k', batches := s.batches ++ [(s.pos, s.pos + k')], high := max s.high (s.pos + k'),
+               accSince := s.accSince + k' }
     else
       -- rejected: `continue` with the same request
       { s with desc := if c.setAfterAccept then s.desc else s.pos + k',
                pos := if c.retryRejected then s.pos else s.pos + k' }
-  | .persist => { s with persisted := s.desc }
-  | .stop => restart { s with persisted := s.desc }
-  | .graceful => restart { s with persisted := s.desc }
+  | .persist => { s with persisted := s.desc, accSince := 0 }
+  | .stop => restart { s with persisted := s.desc, accSince := 0 }
+  | .graceful => restart { s with persisted := s.desc, accSince := 0 }
   | .crash => restart s
+  | .crashAfterAccept k =>
+    let k' := min k (s.n - s.pos)
+    restart { s with all := s.all ++ List.range' s.pos k', batches := s.batches ++ [(s.pos, s.pos + k')],
+                     high := max s.high (s.pos + k') }
   | .grow k => { s with n := s.n + k }
 
 def run (c : Cfg) (s : S) : List L → S
